@@ -51,6 +51,7 @@ def run(rep: Report, tier: str) -> None:
 	rule_g(rep, idx)
 	rule_h(rep, idx)
 	rule_i(rep, idx)
+	rule_j(rep)
 
 
 def _errors_classes(idx: SourceIndex) -> dict[str, object]:
@@ -622,3 +623,98 @@ def rule_i(rep: Report, idx: SourceIndex) -> None:
 	rep.extra_coverage['optional_returning_functions'] = len(names)
 	if n_uses == 0:
 		r.skip('uses', None, 'no attribute read on the result of an Optional-returning function found')
+
+
+# ---- (j) regexp terminals match in linear time ---------------------------------------------------------------------------------------
+
+def rule_j(rep: Report) -> None:
+	"""`processing terminates`: the engine matches every regexp terminal of its grammars against whole tokens with the backtracking re module. A terminal
+	with an unbounded repeat whose body can be empty apart from another unbounded repeat (`(x*y?)*`, `(x*)*`, `(x+)+`) can split a run of x in exponentially
+	many ways; a token that finally does NOT match (a string literal with an escape the terminal does not know) is then rejected only after 2^n steps:
+	24 characters took 7 s. Read from the .lark files with the independent meta-grammar reader and re._parser."""
+	import os
+	import re._parser as sre
+	from vlib import metagram
+	from vlib.core import REPO
+	r = rep.rule('C07/regexp-terminals-linear', 'no regexp terminal of data/syntax/*.lark contains an unbounded repeat whose body is, apart from nullable parts, another unbounded repeat (exponential backtracking on a non-matching token)', floor=10)
+	MAXR = sre.MAXREPEAT
+
+	def nullable(seq) -> bool:
+		for op, av in seq:
+			if op in (sre.MAX_REPEAT, sre.MIN_REPEAT):
+				if av[0] > 0 and not nullable(av[2]):
+					return False
+			elif op is sre.SUBPATTERN:
+				if not nullable(av[3]):
+					return False
+			elif op is sre.BRANCH:
+				if not any(nullable(b) for b in av[1]):
+					return False
+			elif op in (sre.AT, sre.ASSERT, sre.ASSERT_NOT):
+				continue
+			else:
+				return False
+		return True
+
+	def flat(seq):
+		"""items of a sequence with transparent groups opened"""
+		out = []
+		for op, av in seq:
+			if op is sre.SUBPATTERN and len(av[3]) >= 1:
+				out.extend(flat(av[3]))
+			else:
+				out.append((op, av))
+		return out
+
+	def ambiguous(seq) -> str | None:
+		for op, av in seq:
+			if op in (sre.MAX_REPEAT, sre.MIN_REPEAT):
+				lo, hi, body = av
+				if hi == MAXR:
+					items = flat(body)
+					inner = [i for i, (o2, a2) in enumerate(items) if o2 in (sre.MAX_REPEAT, sre.MIN_REPEAT) and a2[1] == MAXR]
+					for i in inner:
+						rest = items[:i] + items[i + 1:]
+						if nullable(rest):
+							return 'an unbounded repeat over a body that is an unbounded repeat plus optional parts'
+				found = ambiguous(body)
+				if found:
+					return found
+			elif op is sre.SUBPATTERN:
+				found = ambiguous(av[3])
+				if found:
+					return found
+			elif op is sre.BRANCH:
+				for b in av[1]:
+					found = ambiguous(b)
+					if found:
+						return found
+		return None
+
+	def regexps(e, out):
+		if isinstance(e, tuple):
+			if len(e) == 2 and e[0] == 'regexp' and isinstance(e[1], str):
+				out.append(e[1])
+			for x in e:
+				regexps(x, out)
+		elif isinstance(e, list):
+			for x in e:
+				regexps(x, out)
+	for rel in ('data/syntax/py_gram.lark', 'data/syntax/gram.lark'):
+		rep.consulted(rel)
+		text = open(os.path.join(REPO, rel), encoding='utf-8').read()
+		rules = metagram.rules_of(metagram.read_grammar(text, rel))
+		for name, body in rules.items():
+			found: list[str] = []
+			regexps(body, found)
+			for rx in found:
+				src = rx[1:rx.rindex('/')] if rx.startswith('/') else rx
+				key = f'{rel}:{name}:{src[:40]}'
+				line = next((i + 1 for i, l in enumerate(text.split('\n')) if l.startswith(name)), 1)
+				try:
+					tree = sre.parse(src)
+				except Exception as e:  # not a Python regular expression: reported by C12's terminal forms
+					r.skip(key, (rel, line), f'regexp not parseable by re: {e}')
+					continue
+				why = ambiguous(list(tree))
+				r.check(why is None, key, (rel, line), f'terminal `{name}` is /{src[:70]}/: {why}. A token that does not match in the end (a quoted text with an escape the terminal does not list) is rejected only after exponentially many attempts — 24 characters take seconds, 40 do not finish — so processing does not terminate in practice', src[:100])
